@@ -1,6 +1,7 @@
 import LentilVerif.Model.FieldZ
 import LentilVerif.Gen.FieldPublicFlow
 import LentilVerif.Gen.FieldOverlapPair
+import LentilVerif.Gen.FieldMulScalar
 /-! `_reduce`, public `overlap` and public `merge` of `lentil/field.py` evaluated from the regenerated value-carrying pieces of
 their statements (`Gen.FieldPublicFlow`, `Gen.FieldOverlapPair`, tests from `Gen.FieldDispatch`); `Props/C06` proves them equal
 to the models `overlapL` / `mergePublic` / the initial groups of `reduce`. Mathlib-free. -/
@@ -41,5 +42,15 @@ def toPair : List Nat → Option (Nat × Nat)
 /-- the index pairs `_disjoint` scans: `for m, n in combinations(range(len(fields)), r)` with the generated `r` -/
 def disjointScan (n : Nat) : List (Nat × Nat) :=
   (combos Gen.disjointScanR (List.range n)).filterMap toPair
+
+/-- `Field._mul_scalar` from its regenerated branch bodies: under the generated offset test the one-element product of the
+generated factors at the generated operand's offset, else the empty product -/
+def mulScalarFlow [Mul K] (a b : Fld K) : Option (Fld K) :=
+  let pick := fun (i : Nat) => if i = 0 then a else b
+  if Gen.mulScalarSame a.o0 a.o1 0 b.o0 b.o1 0 then
+    some { arr := { s0 := 1, s1 := 1,
+                    get := fun _ _ => (pick Gen.mulScalarFactors.1).arr.get 0 0 * (pick Gen.mulScalarFactors.2).arr.get 0 0 },
+           o0 := (pick Gen.mulScalarOffsetOf).o0, o1 := (pick Gen.mulScalarOffsetOf).o1 }
+  else none
 
 end Lentil
